@@ -44,7 +44,7 @@ def run(ctx):
     common.build_ti(ctx)
     common.build_godrv(ctx)
     proof_ok = common.prove(ctx)
-    robust.replay_findings(ctx, ["--suggest", "--row=1"])
+    regress = robust.replay_findings(ctx, ["--suggest", "--row=1"], line_check=line_check)
     cs = cases(ctx, ctx.pick(2400, 24000))
     failures = sweep_cases(ctx, cs, "query-modes")
     for t, fl in cs[:3]:
@@ -53,7 +53,7 @@ def run(ctx):
     def search():
         return sweep_cases(ctx, cases(ctx, 6000), "search")
 
-    common.conclude(ctx, proof_ok, {}, failures, search)
+    common.conclude(ctx, proof_ok, {}, regress + failures, search)
     evidence(ctx)
 
 
